@@ -16,6 +16,9 @@ var _ containers.JSONDeserializer = (*List[int])(nil)
 
 // ToJSON outputs the JSON representation of list's elements.
 func (list *List[T]) ToJSON() ([]byte, error) {
+	if list.elements == nil {
+		return []byte("[]"), nil
+	}
 	return json.Marshal(list.elements)
 }
 
